@@ -6,6 +6,7 @@ from gen import tdma_sched
 ID = "C08"
 LEVEL = "proof"
 LEAN_MODULES = ["OsmoVerif.Props.C08"]
+DRIVER_MODULES = ["TdmaSched"]
 LEAN_MODEL_MODULES = ["OsmoVerif.Model.TdmaSched", "OsmoVerif.Spec.TdmaSched", "OsmoVerif.Lemmas.TdmaSchedBasic",
                       "OsmoVerif.Lemmas.TdmaSchedSort", "OsmoVerif.Lemmas.TdmaSchedOps", "OsmoVerif.Lemmas.TdmaSchedSpec",
                       "OsmoVerif.Lemmas.TdmaSched"]
